@@ -142,7 +142,49 @@ def native_check(con, fn, args, tag=None):
     return None
 
 
+def concretize_value(m, v):
+    """evaluate a (symbolic) entry value in a model -> concrete Python value, or raise ValueError"""
+    from .values import SV, SInt, SBool, SReal, SBytes, SStr, SSeq, SEnum, Int, Bool, Real, Bytes, ByteArray, Str, ListOf, EnumOf
+
+    def ev(sort, term):
+        r = concretize(sort, m.eval(term, model_completion=True))
+        if r is None:
+            raise ValueError(f"model value of {term} not representable")
+        return r
+
+    if isinstance(v, SInt):
+        return ev(Int, v.term)
+    if isinstance(v, SBool):
+        return ev(Bool, v.term)
+    if isinstance(v, SReal):
+        return ev(Real, v.term)
+    if isinstance(v, SBytes):
+        return ev(ByteArray if v.mutable else Bytes, v.term)
+    if isinstance(v, SStr):
+        return ev(Str, v.term)
+    if isinstance(v, SEnum):
+        return ev(EnumOf(v.cls), v.term)
+    if isinstance(v, SSeq):
+        r = ev(ListOf(v.elem), v.term)
+        return r if v.mutable else tuple(r)
+    if isinstance(v, SV):
+        raise ValueError("opaque value")
+    if isinstance(v, tuple):
+        return tuple(concretize_value(m, x) for x in v)
+    if isinstance(v, list):
+        return [concretize_value(m, x) for x in v]
+    if isinstance(v, dict):
+        return {k: concretize_value(m, x) for k, x in v.items()}
+    from .values import SObj, SymRecDict
+
+    if isinstance(v, (SObj, SymRecDict)):
+        raise ValueError("heap object")
+    return v
+
+
 def model_args(env, con, ob, timeout_ms=8000):
+    if ob.entry is None:
+        return None
     insts = spec_instances(env, list(ob.pc) + [ob.goal])
     s = z3.Solver()
     s.set("timeout", timeout_ms)
@@ -152,18 +194,10 @@ def model_args(env, con, ob, timeout_ms=8000):
     if s.check() != z3.sat:
         return None
     m = s.model()
-    out = {}
-    for p, srt in con.params.items():
-        if not isinstance(srt, Sort):
-            return None
-        c = z3.Const(f"arg_{p}!0", srt.z3sort())
-        if isinstance(srt, TupleOf):
-            return None
-        v = concretize(srt, m.eval(c, model_completion=True))
-        if v is None:
-            return None
-        out[p] = v
-    return out
+    try:
+        return {k: concretize_value(m, v) for k, v in ob.entry.items()}
+    except ValueError:
+        return None
 
 
 def find_witness(env, con, obs, budget):
@@ -173,8 +207,6 @@ def find_witness(env, con, obs, budget):
         if isinstance(r, staticmethod):
             r = r.__func__
         return r(env, con, obs)
-    if not all(isinstance(s, Sort) for s in con.params.values()):
-        return None
     fn, _ = resolve_target(con.target)
     fn_params = set(inspect.signature(fn).parameters)
     tried = 0
